@@ -3,6 +3,10 @@
 //! oracle = reference decoder (acceptance implies consistency); a panic is a crash by itself.
 use libfuzzer_sys::fuzz_target;
 
+// the allocation cap of the C08 oracle (check_bytes arms it) needs the counting allocator
+#[global_allocator]
+static GLOBAL: xv::util::alloc_guard::CountingAlloc = xv::util::alloc_guard::CountingAlloc;
+
 fuzz_target!(|input: &[u8]| {
     if input.len() < 33 {
         return;
